@@ -1,5 +1,6 @@
 (* prelude: zn *)
-(* C09 driver: same case lines as harness/src/bin/c09.rs.  Mode "cal": civil fields. *)
+(* C09 driver: same case lines as harness/src/bin/c09.rs.  Mode "cal": civil fields;
+   mode "forget": the command level (grouping, retention per group, into_forget_ids, from_snapshots). *)
 let rd_span t =
   let y = ni t in let mo = ni t in let w = ni t in let d = ni t in
   let h = ni t in let mi = ni t in let s = ni t in
@@ -23,8 +24,7 @@ let reason_str = function
   | RId -> "id" | RTags -> "tags" | RSnapshot -> "snapshot" | RUnchanged -> "unchanged"
   | RCount p -> "c:" ^ pname p | RWithin p -> "w:" ^ pname p
 
-let apply_case line =
-  let t = toks line in
+let rd_keep t =
   let now = ni t in let _ = ni t in
   let cnt = Array.make 9 None in
   for i = 0 to 8 do if ni t = 1 then cnt.(i) <- Some (z_of_int (ni t)) done;
@@ -34,18 +34,29 @@ let apply_case line =
   let du = ni t = 1 in
   let tags = rd_list t rd_nlist in
   let ids = rd_list t rd_nlist in
+  (now, { k_count = (fun p -> cnt.(pidx p)); k_within = (fun p -> wi.(pidx p));
+          k_tags = tags; k_ids = ids; k_none = k_none; k_delete_unchanged = du })
+
+(* `ns` then per snapshot `inst off id <tags> del tree`, with ext: `host label <paths>` *)
+let rd_snaps t ext =
   let ns = ni t in
-  let ids_of = Hashtbl.create 16 in
-  let snaps = ntimes ns (fun () ->
+  ntimes ns (fun () ->
     let inst = ni t in let off = ni t in let id = ni t in
     let tg = rd_nlist t in
     let del = match ni t with 0 -> DNotSet | 1 -> DNever | _ -> DAfter (z_of_int (ni t)) in
     let tree = ni t in
+    let (h, lb, ps) = if ext then (let h = ni t in let lb = ni t in let ps = rd_nlist t in (h, lb, ps)) else (0, 0, []) in
     let s = { s_inst = z_of_int inst; s_offs = z_of_int off;
-              s_id = List.map n_of_int (id_nibbles id); s_tags = tg; s_del = del; s_tree = n_of_int tree } in
-    Hashtbl.replace ids_of (inst, id) id; (s, id)) in
-  let k = { k_count = (fun p -> cnt.(pidx p)); k_within = (fun p -> wi.(pidx p));
-            k_tags = tags; k_ids = ids; k_none = k_none; k_delete_unchanged = du } in
+              s_id = List.map n_of_int (id_nibbles id); s_tags = tg; s_del = del; s_tree = n_of_int tree;
+              s_host = n_of_int h; s_label = n_of_int lb; s_paths = ps } in
+    (s, id))
+
+let flags f = String.concat "" (List.map (fun x -> if x then "1" else "0") f)
+
+let apply_case line =
+  let t = toks line in
+  let (now, k) = rd_keep t in
+  let snaps = rd_snaps t false in
   let l = List.map fst snaps in
   if not (sorted_desc l) then "unsorted" else
   match apply_sorted k (z_of_int now) l with
@@ -57,11 +68,71 @@ let apply_case line =
       Buffer.add_string b (Printf.sprintf " %d:%d:%s" id (if kp then 1 else 0)
         (String.concat "+" (List.map reason_str rs)))) res snaps;
     (* oracle: documented keep flags, the adjacency reading, and the premise of runs_are_periods *)
-    let flags f = String.concat "" (List.map (fun x -> if x then "1" else "0") f) in
     Buffer.add_string b (Printf.sprintf " | doc=%s adj=%s mono=%d"
       (flags (doc_apply k (z_of_int now) l)) (flags (adj_apply k (z_of_int now) l))
       (if keys_monotone l then 1 else 0));
     Buffer.contents b
+
+(* ---- command level: same strings as harness/src/bin/c09.rs *)
+let id_of_nibbles nb =
+  match List.map int_of_n nb with a :: b :: c :: d :: _ -> (a lsl 12) lor (b lsl 8) lor (c lsl 4) lor d | _ -> -1
+let sid s = id_of_nibbles s.s_id
+let host_str n = if n = 0 then "" else Printf.sprintf "h%02d" n
+let label_str n = if n = 0 then "" else Printf.sprintf "l%02d" n
+let path_str n = if n = 0 then "" else Printf.sprintf "/p%d" n
+let tag_str n = Printf.sprintf "t%d" n
+let key_str g =
+  let o f = function None -> "-" | Some n -> "[" ^ f (int_of_n n) ^ "]" in
+  let l f = function None -> "-" | Some ns ->
+    Printf.sprintf "[%d:%s]" (List.length ns) (String.concat "," (List.map (fun n -> f (int_of_n n)) ns)) in
+  Printf.sprintf "h=%s,l=%s,p=%s,t=%s" (o host_str g.gk_host) (o label_str g.gk_label) (l path_str g.gk_paths) (l tag_str g.gk_tags)
+let group_str rstr (g, items) =
+  String.concat " " (key_str g :: List.map (fun ((s, kp), r) ->
+    Printf.sprintf "%d:%d:%s" (sid s) (if kp then 1 else 0) (rstr r)) items)
+let groups_str rstr gs = String.concat " ; " (List.map (group_str rstr) gs)
+let ids_str ids = String.concat "," (List.map (fun nb -> string_of_int (id_of_nibbles nb)) ids)
+let rs_str rs = String.concat "+" (List.map reason_str rs)
+let result_str = function
+  | None -> "err"
+  | Some fgs -> Printf.sprintf "ok %s | ids=%s" (groups_str rs_str fgs) (ids_str (into_forget_ids fgs))
+
+(* `<4 criterion flags> <keep options> <snapshots, ext> <arrangement>`; arrangement: -1, or the number
+   of groups and per group the number of items and their ids, as the implementation returned them *)
+let forget_case line =
+  let t = toks line in
+  let b1 () = ni t = 1 in
+  let h = b1 () in let lb = b1 () in let ps = b1 () in let tg = b1 () in
+  let cr = { cr_host = h; cr_label = lb; cr_paths = ps; cr_tags = tg } in
+  let (now, k) = rd_keep t in
+  let snaps = rd_snaps t true in
+  let l = List.map fst snaps in
+  let nowz = z_of_int now in
+  let byid = Hashtbl.create 16 in
+  List.iter (fun (s, id) -> Hashtbl.replace byid id s) snaps;
+  let exec = result_str (forget_groups_exec cr k nowz l) in
+  let spec = result_str (forget_groups_spec cr k nowz l) in
+  let fs = from_snapshots nowz l in
+  let fs_str = Printf.sprintf "fs=%s | fsids=%s"
+    (groups_str (function FSnapshot -> "snapshot" | FIfArgument -> "if_argument") fs)
+    (ids_str (from_snapshots_forget_ids nowz l)) in
+  let ng = ni t in
+  let arr, oracle =
+    if ng < 0 then ("none", "wf=1 distinct=0 doc= mono=") else begin
+      let gs = ntimes ng (fun () ->
+        let n = ni t in
+        let items = ntimes n (fun () -> Hashtbl.find byid (ni t)) in
+        ((match items with s :: _ -> gkey cr s | [] -> default_key), items)) in
+      let wf = grouping_wf cr gs in
+      let distinct = List.for_all (fun (_, items) ->
+        let ts = List.map (fun s -> int_of_z s.s_inst) items in
+        List.length (List.sort_uniq compare ts) = List.length ts) gs in
+      let docs = List.map (fun (_, items) -> flags (doc_apply k nowz items)) gs in
+      let monos = List.map (fun (_, items) -> if keys_monotone items then "1" else "0") gs in
+      (result_str (apply_groups_sorted k nowz gs),
+       Printf.sprintf "wf=%d distinct=%d doc=%s mono=%s" (if wf then 1 else 0) (if distinct then 1 else 0)
+         (String.concat "," docs) (String.concat "" monos))
+    end in
+  Printf.sprintf "EXEC %s || SPEC %s || ARR %s || FS %s || O %s" exec spec arr fs_str oracle
 
 let cal_case line =
   let t = toks line in
@@ -74,4 +145,4 @@ let cal_case line =
 
 let () =
   let mode = if Array.length Sys.argv > 2 then Sys.argv.(2) else "apply" in
-  main_loop (if mode = "cal" then cal_case else apply_case)
+  main_loop (if mode = "cal" then cal_case else if mode = "forget" then forget_case else apply_case)
